@@ -208,6 +208,52 @@ RES26 = 'ABCDEFGHIJKLMNOPQRSTUVWXYZ'
 RES20 = 'ACDEFGHIKLMNPQRSTVWY'
 
 
+HARD_FLOATS = [0.1 + 0.2, 1234.56789012, 15.99491461957, 1 / 3, 200 / 3, 0.1, 2.675, 4.35, 1.0000000000000002,
+               0.30000000000000004, 999999.9999999999, 123456789012345.6, 0.0001234567890123, 0.00012345, 57.021463735,
+               79.96633052075, 42.010564684, 0.984015583, 15.994914619, 1.00727646688, 27.99491461957, 1e-4, 9999999999.5,
+               123456.7890123, 0.9999999999, 1.999999999999, 100000.00001, 3.141592653589793, 2.718281828459045, 299792458.123]
+
+
+def hard_floats(rng, n, max_sig=17, min_sig=1):
+    """floats over the whole repr range: 1..max_sig significant digits, magnitudes 1e-4 .. 1e15, both signs,
+    trailing 9s / 0s, plus a fixed list of classics; every value has at most max_sig significant digits in its repr"""
+    out = []
+    pool = [x for x in HARD_FLOATS + [-x for x in HARD_FLOATS]]
+    while len(out) < n:
+        k = rng.random()
+        if k < 0.3:
+            x = rng.choice(pool)
+        else:
+            e = rng.randint(-4, 14)
+            x = rng.uniform(1, 10) * 10 ** e
+            if k < 0.5:      # trailing 9s / 0s
+                x = float(('%.' + str(rng.randint(1, 6)) + 'g') % x) + rng.choice([1, -1]) * 10 ** (e - rng.randint(9, 14))
+            sig = rng.randint(min_sig, max_sig)
+            x = float(('%.' + str(sig) + 'g') % x)
+            if rng.random() < 0.4:
+                x = -x
+        digits = repr(abs(x)).replace('.', '').lstrip('0')
+        if 'e' in digits:
+            digits = digits.split('e')[0]
+        if x != 0 and len(digits.rstrip('0')) <= max_sig and len(digits.rstrip('0')) >= min(min_sig, 1):
+            out.append(x)
+    return out
+
+
+def float_annotations(rng, n, max_sig=17):
+    """annotations with a float modification at EVERY numeric position (labile, unknown, N-term, C-term, residues, interval)"""
+    _, pp, _, Interval, _ = _mods()
+    out = []
+    for _ in range(n):
+        fl = hard_floats(rng, 9, max_sig)
+        m = [mk_mod(x, rng.choice([1, 1, 2, 3])) for x in fl]
+        out.append(pp.ProFormaAnnotation(
+            _sequence='PEPTIDEK', _labile_mods=[m[0]], _unknown_mods=[m[1]], _nterm_mods=[m[2]], _cterm_mods=[m[3]],
+            _internal_mods={0: [m[4]], 3: [m[5], m[6]], 7: [m[7]]}, _intervals=[Interval(1, 3, False, [m[8]])],
+            _charge=rng.choice([None, 2, -1])))
+    return out
+
+
 def mk_mod(val, mult):
     """a Mod with exactly these field values (bypasses convert_type: the expectation is independent of it)"""
     Mod = _mods()[2]
@@ -260,7 +306,13 @@ class Gen:
                 val = r.choice(INTS) if r.random() < 0.7 else r.randint(-10 ** 6, 10 ** 6)
                 t = self.spell_number(val, style)
             else:
-                val = r.choice(FLOATS) if r.random() < 0.7 else round(r.uniform(-2000, 2000), r.randint(1, 6))
+                k2 = r.random()
+                if k2 < 0.4:
+                    val = r.choice(FLOATS)
+                elif k2 < 0.6:
+                    val = round(r.uniform(-2000, 2000), r.randint(1, 6))
+                else:       # the whole repr range the model covers exactly: up to 15 significant digits, 1e-4 .. 1e15
+                    val = hard_floats(r, 1, max_sig=15)[0]
                 t = self.spell_number(val, style)
             if _balanced(t, o, c) and (kind in ('int', 'float') or not _is_number(t)):
                 self.cnt('value:' + kind)
